@@ -247,9 +247,11 @@ func (r *Receiver) SegmentHandlerFunc(w http.ResponseWriter, req *http.Request) 
 				}
 			}
 			//TODO. Add test cases for multiple-chunks rewrite
+			mfhdChanged := false
 			if moof.Mfhd.SequenceNumber != rsd.seqNr {
-				log.Debug("Sequence number changed", "oldSeqNr", rsd.seqNr, "newSeqNr", moof.Mfhd.SequenceNumber)
+				log.Debug("Sequence number changed", "oldSeqNr", moof.Mfhd.SequenceNumber, "newSeqNr", rsd.seqNr)
 				moof.Mfhd.SequenceNumber = rsd.seqNr
+				mfhdChanged = true // the stored file must carry the outgoing number as well
 			}
 			if trd.timeScaleOut != trd.timeScaleIn && moof.Traf.Trun.HasSampleDuration() {
 				for i := range moof.Traf.Trun.Samples {
@@ -262,7 +264,7 @@ func (r *Receiver) SegmentHandlerFunc(w http.ResponseWriter, req *http.Request) 
 			log.Debug("Media chunk processed", "chunkNr", rsd.chunkNr, "dur", dur)
 			rsd.chunkNr++
 			rsd.totDur += dur
-			if rsd.isShifted || trd.timeScaleIn != trd.timeScaleOut {
+			if rsd.isShifted || mfhdChanged || trd.timeScaleIn != trd.timeScaleOut {
 				sw := bits.NewFixedSliceWriter(int(seg.Size()))
 				err = seg.EncodeSW(sw)
 				if err != nil {
